@@ -136,5 +136,151 @@ def u_condense():
                 assumptions=["node names are arbitrary strings (String theory); original node names differ from the synthetic global source/sink ids"])
 
 
+def _cat(t, suffix):
+    return z3.Concat(t, z3.StringVal(suffix))
+
+
+def _gee(x):
+    """CONTRACT of get_expanded_edge (proved by its own units): node n -> (n.0, n.1), edge (u,v) -> (u.1, v.0), unknown -> ValueError"""
+    c = core.ctx()
+    if isinstance(x, tuple):
+        if not c.decide(IS_EDGE(lift(x[0]), lift(x[1])), "known-edge"):
+            raise ValueError("unknown edge")
+        return (Sym(_cat(lift(x[0]), ".1")), Sym(_cat(lift(x[1]), ".0")))
+    if not c.decide(IS_NODE(lift(x)), "known-node"):
+        raise ValueError("unknown node")
+    return (Sym(_cat(lift(x), ".0")), Sym(_cat(lift(x), ".1")))
+
+
+def u_expanded_constraints():
+    """_get_expanded_subpath_constraints_nodes / _edges and the dispatcher get_expanded_subpath_constraints: what the models hand to the DAG / walk
+    encoders as the constraints of a node-weighted instance.
+      nodes:  [n_0..n_{m-1}]            ->  [(n_j.0, n_j.1)]_j                                                  (length m)
+      edges:  [(u_0,v_0)..(u_{m-1},v_{m-1})] -> [(u_0.0,u_0.1), (u_0.1,v_0.0), (u_1.0,u_1.1), ..., (u_{m-1}.1,v_{m-1}.0), (v_{m-1}.0,v_{m-1}.1)]   (length 2m+1)
+      ValueError exactly when a listed node / edge is not in the original graph; one output list per input list, in order.
+    Two abstract constraints of arbitrary length are passed (the outer loop runs natively twice: state leaking from one constraint into the
+    next would show); each inner loop is cut at its invariant."""
+    from pyvc.heap import STuple
+    PAIR = STuple(SStr, SStr)
+    st = {}
+
+    def a_(sq, j): return lift(sq._at(j)[0])
+    def b_(sq, j): return lift(sq._at(j)[1])
+
+    def empty_pairs():
+        return SymSeq(z3.IntVal(0), lambda j: (Sym(z3.StringVal("")), Sym(z3.StringVal(""))), PAIR, "expanded_constraint")
+
+    # ---- node lists
+    def spec_nodes(out, con):
+        j = z3.Int("sn")
+        return z3.And(out.n == con.n, z3.ForAll([j], z3.Implies(z3.And(j >= 0, j < con.n),
+                      z3.And(a_(out, j) == _cat(lift(con._at(j)), ".0"), b_(out, j) == _cat(lift(con._at(j)), ".1")))))
+
+    def inv_nodes(ns, seq, done):
+        ec, con, d = ns["expanded_constraint"], ns["constraint"], lift(done)
+        j = z3.Int("in")
+        return {"expanded-prefix=(n.0,n.1)-of-the-nodes-so-far,-all-known": z3.And(ec.n == d, z3.ForAll([j], z3.Implies(z3.And(j >= 0, j < d), z3.And(
+            IS_NODE(lift(con._at(j))), a_(ec, j) == _cat(lift(con._at(j)), ".0"), b_(ec, j) == _cat(lift(con._at(j)), ".1")))))}
+
+    def h_nodes(c, f):
+        me = Me()
+        st["outer"] = True
+        cons = [SymSeq.fresh("constraint_a", SStr), SymSeq.fresh("constraint_b", SStr)]
+        try:
+            out = f(me, cons)
+        except ValueError:
+            q, j = z3.Ints("xq xj")
+            c.prove("xpost:ValueError-only-if-a-listed-node-is-not-a-node-of-the-original-graph",
+                    z3.Or(*[z3.Exists([j], z3.And(j >= 0, j < k.n, z3.Not(IS_NODE(lift(k._at(j)))))) for k in cons]), prop=PP, kind="xpost")
+            return
+        c.prove("post:one-expanded-constraint-per-constraint", z3.BoolVal(isinstance(out, list) and len(out) == 2), prop=PP)
+        j = z3.Int("pj")
+        for q, k in enumerate(cons):
+            c.prove("post:constraint-%d-expands-to-the-node-edges-(n.0,n.1)-in-order" % q, spec_nodes(out[q], k), prop=PP)
+            c.prove("post:normal-return-only-if-every-listed-node-is-known[%d]" % q, z3.ForAll([j], z3.Implies(z3.And(j >= 0, j < k.n), IS_NODE(lift(k._at(j))))), prop=PP)
+
+    # ---- edge lists
+    def spec_edges_prefix(ec, con, d, closed):
+        """first d edges expanded; `closed`: the final node edge has been appended (d == m > 0)"""
+        j = z3.Int("se")
+        u = lambda x: a_(con, x)
+        v = lambda x: b_(con, x)
+        body = z3.ForAll([j], z3.Implies(z3.And(j >= 0, j < d), z3.And(
+            IS_EDGE(u(j), v(j)),
+            a_(ec, 2 * j) == _cat(u(j), ".0"), b_(ec, 2 * j) == _cat(u(j), ".1"),
+            a_(ec, 2 * j + 1) == _cat(u(j), ".1"), b_(ec, 2 * j + 1) == _cat(v(j), ".0"))))
+        last = z3.And(a_(ec, 2 * d) == _cat(v(d - 1), ".0"), b_(ec, 2 * d) == _cat(v(d - 1), ".1"))
+        return z3.And(ec.n == 2 * d + z3.If(closed, 1, 0), body, z3.Implies(closed, last))
+
+    def inv_edges(ns, seq, done):
+        ec, con, d = ns["expanded_constraint"], ns["constraint"], lift(done)
+        return {"expanded-prefix=node-edge,edge-edge-per-listed-edge-(+closing-node-edge-after-the-last)": spec_edges_prefix(ec, con, d, z3.And(d == con.n, d > 0))}
+
+    def h_edges(c, f):
+        me = Me()
+        st["outer"] = True
+        me.get_expanded_edge = _gee
+        cons = [SymSeq.fresh("constraint_a", PAIR), SymSeq.fresh("constraint_b", PAIR)]
+        try:
+            out = f(me, cons)
+        except ValueError:
+            j = z3.Int("xj")
+            c.prove("xpost:ValueError-only-if-a-listed-edge-is-not-an-edge-(or-an-endpoint-not-a-node)-of-the-original-graph",
+                    z3.Or(*[z3.Exists([j], z3.And(j >= 0, j < k.n, z3.Or(z3.Not(IS_EDGE(a_(k, j), b_(k, j))), z3.Not(IS_NODE(a_(k, j))), z3.Not(IS_NODE(b_(k, j)))))) for k in cons]),
+                    prop=PP, kind="xpost")
+            return
+        c.prove("post:one-expanded-constraint-per-constraint", z3.BoolVal(isinstance(out, list) and len(out) == 2), prop=PP)
+        for q, k in enumerate(cons):
+            o = out[q]
+            c.prove("post:constraint-%d-expands-to-u0-node-edge,(u0.1,v0.0),u1-node-edge,...,closing-node-edge-of-the-last-head" % q,
+                    spec_edges_prefix(o, k, k.n, k.n > 0), prop=PP)
+
+    PP = P + ",C10"
+    hv = lambda old: SymSeq.fresh("expanded_constraint", PAIR)
+    # the first `[]` of a call is the outer result list (a real list), the others are the per-constraint lists
+    lit = dict(list=lambda: ([] if st.pop("outer", False) else empty_pairs()))
+    g = dict(utils=UtilsStub)
+    from vf.replay import replay_expanded_constraints
+    units = [Unit(F, "NodeExpandedDiGraph._get_expanded_subpath_constraints_nodes", h_nodes, globs=g, props=[P, "C10"], literals=dict(lit), replay=replay_expanded_constraints("nodes"),
+                  loops={0: dict(inv=lambda ns, seq, done: {}, prop=PP), 1: dict(inv=inv_nodes, prop=PP, havoc={"expanded_constraint": hv}, keep=("node",))},
+                  assumptions=["node names are arbitrary strings (String theory)"]),
+             Unit(F, "NodeExpandedDiGraph._get_expanded_subpath_constraints_edges", h_edges, globs=g, props=[P, "C10"], literals=dict(lit), replay=replay_expanded_constraints("edges"),
+                  loops={0: dict(inv=lambda ns, seq, done: {}, prop=PP), 1: dict(inv=inv_edges, prop=PP, havoc={"expanded_constraint": hv}, keep=("i", "edge"))},
+                  callee_contracts=["get_expanded_edge: node n -> (n.0, n.1), unknown -> ValueError (own units)"],
+                  assumptions=["node names are arbitrary strings (String theory)", "an edge of the original graph joins two of its nodes"])]
+    def mk_dispatch(kind):
+        def h(c, f):
+            me = Me()
+            calls = []
+            me._get_expanded_subpath_constraints_nodes = lambda cs: calls.append(("nodes", cs)) or "NODES-RESULT"
+            me._get_expanded_subpath_constraints_edges = lambda cs: calls.append(("edges", cs)) or "EDGES-RESULT"
+            if kind == "not-a-list":
+                arg = (SymSeq.fresh("constraint_a", SStr),)
+            elif kind == "empty":
+                arg = []
+            else:
+                arg = [SymSeq.fresh("constraint_a", SStr if kind == "nodes" else PAIR), SymSeq.fresh("constraint_b", SStr if kind == "nodes" else PAIR)]
+            try:
+                r = f(me, arg)
+            except ValueError:
+                if kind in ("nodes", "edges"):
+                    c.prove("xpost:ValueError-for-a-list-of-lists-only-if-some-constraint-is-empty", z3.Or(arg[0].n == 0, arg[1].n == 0), prop=PP, kind="xpost")
+                else:
+                    c.prove("xpost:ValueError-for-an-argument-that-is-not-a-list", z3.BoolVal(kind == "not-a-list"), prop=PP, kind="xpost")
+                return
+            if kind == "empty":
+                c.prove("post:no-constraints=>no-expanded-constraints", z3.BoolVal(r == [] and not calls), prop=PP)
+            elif kind == "not-a-list":
+                c.prove("post:an-argument-that-is-not-a-list-is-rejected", z3.BoolVal(False), prop=PP)
+            else:
+                c.prove("post:lists-of-%s-are-expanded-by-the-%s-expander-applied-to-the-whole-argument" % (kind, kind),
+                        z3.BoolVal(len(calls) == 1 and calls[0][0] == kind and calls[0][1] is arg and r == kind.upper() + "-RESULT"), prop=PP)
+                c.prove("post:normal-return-only-if-no-constraint-is-empty", z3.And(arg[0].n > 0, arg[1].n > 0), prop=PP)
+        return Unit(F, "NodeExpandedDiGraph.get_expanded_subpath_constraints", h, globs=g, props=[P, "C10"],
+                    name="%s:NodeExpandedDiGraph.get_expanded_subpath_constraints[%s]" % (F, kind),
+                    callee_contracts=["_get_expanded_subpath_constraints_nodes / _edges (own units)"])
+    return units + [mk_dispatch(k) for k in ("nodes", "edges", "empty", "not-a-list")]
+
+
 def all_units():
-    return u_expanded_edge() + u_starts_ends() + [u_condense()]
+    return u_expanded_edge() + u_starts_ends() + [u_condense()] + u_expanded_constraints()
